@@ -563,6 +563,22 @@ pub fn gen_cfgrun(seed: u64, n: usize) -> Vec<Scenario> {
     out
 }
 
+/// UDP paris / dublin without privileges (F28): the sequence fields of those strategies cannot be set on a datagram
+/// socket.  A tracer that refuses to start is fine; one that runs must recognise every genuine response.
+pub fn gen_unpriv(seed: u64, n: usize) -> Vec<Scenario> {
+    let mut v = gen_codec(seed ^ 0x0f28, n);
+    for (i, sc) in v.iter_mut().enumerate() {
+        sc.id = format!("unpriv-{seed}-{i}");
+        sc.proto = "udp".into();
+        sc.strat = (*[&"paris", &"dublin"][i % 2]).into();
+        sc.ports = (*[&"src", &"dest", &"both"][(i / 2) % 3]).into();
+        sc.fam = if (i / 6) % 2 == 0 { 4 } else { 6 };
+        sc.privileged = false;
+        sc.packet_size = sc.packet_size.max(if sc.fam == 4 { 28 } else { 48 });
+    }
+    v
+}
+
 /// Long runs (C02 / C07): many rounds over a responsive path so that the cumulative sequence offset crosses the
 /// buffer size and the wrap-around point of every regime - IPv6 / UDP / dublin (the sequence rides in the payload
 /// length and is reset when it no longer fits) and the others started close to the largest initial sequence.
